@@ -114,6 +114,17 @@ func robBody(shape string, sub uint32, rng *rand.Rand, child uint32) []byte {
 				b.Bytes(nil).I32(uint32(e)).I64(0).I32(0).I32(0).I32(0).I32(0).I32(0)
 			}
 		}
+	case "list_sizes":
+		// directory listing, full form: a directory whose total and whose files' sizes sit at the boundaries of the signed 64-bit range
+		sizes := []uint64{1 << 63, 1<<63 - 1, 1<<63 + 1, ^uint64(0)}
+		b.I32(uint32(rng.Intn(2))).I32(0).WStr("C:\\x").I32(1)
+		b.Bytes(refdemon.UTF16LE("C:\\x\\*", true)).I32(uint32(len(sizes))).I32(0).I64(1 << 63)
+		for i, sz := range sizes {
+			b.Bytes(refdemon.UTF16LE(fmt.Sprintf("f%d.bin", i), true)).I32(0).I64(sz).I32(1).I32(2).I32(2024).I32(4).I32(5)
+		}
+	case "open_sizes":
+		// a download announced with such a size (mode 0 = open, file id, size, name)
+		b.I32(0).I32(0x51 + uint32(rng.Intn(4))).I64([]uint64{1 << 63, 1<<63 - 1, 1<<63 + 1, ^uint64(0)}[rng.Intn(4)]).WStr("C:\\x\\big.bin")
 	case "empties":
 		for i := 0; i < 12; i++ {
 			b.Bytes(nil).I32(0).I32(uint32(i)).Bytes(nil)
@@ -176,6 +187,9 @@ func RunRobust(behs [][]Step, tr *Trace, env Env, sum *Summary) {
 		req := uint32(0x1234)
 		if a := w.Agent(id); a != nil && s("state") != "fresh" {
 			req = rw.issue(id)
+			if bi%3 == 1 {
+				rw.issue(id) // the request answered is not the youngest one outstanding
+			}
 		}
 		// two hops: a task for the deepest agent waits in the first hop's queue, wrapped twice
 		if rw.grand != 0 && w.Agent(rw.grand) != nil {
